@@ -18,7 +18,7 @@ from engine.cfg import call_name
 from engine.errors import AnalysisError
 from engine.raises import _is_subclass, enclosing_catchers, raise_sites
 from engine.repo import walk_no_nested
-from engine.util import calls_in, dotted, unparse
+from engine.util import calls_in, dotted, local_assignments, unparse
 
 ID = 'C16'
 LOC = 'sdc11073.location.SdcLocation'
@@ -169,6 +169,27 @@ def run(ctx):  # noqa: C901, PLR0912, PLR0915
            witness={'writer': sorted(x for x in w if x), 'reader': sorted(x for x in r if x)})
     ctx.ob('C16.R3', 'query codec', 'urlencode' in w and 'parse_qsl' in r,
            'scope_string urlencodes the query, from_scope_string parses it with parse_qsl', fi=fs)
+    # exactly one decoding layer per encoding layer: parse_qsl already percent-decodes the query values
+    la = local_assignments(fs.node)
+    double = []
+    for c in calls_in(fs.node):
+        if call_name(c) in ('unquote', 'unquote_plus') and c.args:
+            srcs = {n.id for a in c.args for n in ast.walk(a) if isinstance(n, ast.Name)}
+            todo, seen = list(srcs), set()
+            while todo:
+                nm = todo.pop()
+                if nm in seen:
+                    continue
+                seen.add(nm)
+                for v in la.get(nm, []):
+                    todo.extend(n.id for n in ast.walk(v) if isinstance(n, ast.Name))
+                    if any(isinstance(x, ast.Call) and call_name(x) in ('parse_qsl', 'parse_qs') for x in ast.walk(v)):
+                        double.append(unparse(c))
+    n_root = sum(1 for c in calls_in(fs.node) if call_name(c) == 'unquote' and 'path' in unparse(c))
+    ctx.ob('C16.R3', 'one decoding layer', not double and n_root <= 1,
+           'from_scope_string decodes the query once (parse_qsl) and the root segment once (unquote)' if not double else
+           f'from_scope_string applies {double[0]} to a value that parse_qsl already decoded: an element containing a '
+           f'literal percent escape (e.g. "Ward%20A") does not round-trip', fi=fs, witness=double)
     wq = {call_name(c) for c in calls_in(qf.node)}
     ctx.ob('C16.R3', 'provider query codec', 'urlencode' in wq,
            'the provider builds the location query with urlencode (inverse of parse_qsl)', fi=qf)
@@ -241,6 +262,8 @@ SEEDS = [
          (_L, "    def __eq__(self, other: object) -> bool:\n        attr_names = (*self.url_elements, 'root')", "    def __eq__(self, other: object) -> bool:\n        attr_names = ('fac', 'poc', 'bed', 'root')")),
     seed('root not unquoted', 'C16.R3',
          (_L, "        root = unquote(path_elements[1]) if len(path_elements) > 1 else ''", "        root = path_elements[1] if len(path_elements) > 1 else ''")),
+    seed('query values decoded twice', 'C16.R3',
+         (_L, "            arguments_dict[attr_name] = query_dict.get(attr_name)", "            value = query_dict.get(attr_name)\n            arguments_dict[attr_name] = unquote(value) if value is not None else None")),
     seed('__contains__: unset own element must equal', 'C16.R4',
          (_L, "            if my_attr is not None:\n                if my_attr != getattr(other, attr_name):\n                    return False",
           "            if my_attr != getattr(other, attr_name):\n                return False")),
